@@ -83,6 +83,16 @@ def jobs(tier):
     add('update', dict(kind='NautilusBound', d=1, n_neural=1, n_net=0,
                        members=[[True]], cache=1, n=2, unroll=8), block=B,
         max_paths=6000)
+    # the cache is drained to exactly zero rows before the update
+    add('update', dict(kind='NautilusBound', d=1, n_neural=1, n_net=0,
+                       members=[[True]], cache=1, n=1, unroll=8), block=B)
+    add('update', dict(kind='Union', d=1, members=['ell'], cache=1, n=1,
+                       unroll=3))
+    # record order of many members (field-level comparison, no sampling)
+    add('io_fields', dict(kind='Union', d=1, unit=True,
+                          members=['ell'] * 12, cache=1))
+    add('io_fields', dict(kind='NautilusBound', d=1, n_neural=11, n_net=0,
+                          members=[[True]] * 11, cache=1))
     if thorough:
         add('io', dict(kind='Union', d=2, unit=True,
                        members=['ell', [True, False]], cache=1, unroll=2),
